@@ -660,8 +660,76 @@ func workerEnv(eng *props.Engine, w int) []string {
 }
 
 var driverHooks = map[string]func(eng *props.Engine, tier string, seed uint64, runs int, agg *doneRec) ([]*violRec, error){
-	"C06": crossProcessDigests,
+	"C06": func(eng *props.Engine, tier string, seed uint64, runs int, agg *doneRec) ([]*violRec, error) {
+		v1, err := crossProcessDigests(eng, tier, seed, runs, agg)
+		if err != nil {
+			return nil, err
+		}
+		v2, err := clockIndependence(eng, tier, seed, runs, agg)
+		return append(v1, v2...), err
+	},
 	"C18": crossProcessDigests,
+}
+
+// clockIndependence runs the simulated-clock sub-check (harness/clock, a test binary built with the newer Go
+// toolchain for testing/synctest; its path comes in VERIF_CLOCK_BIN). Without the binary the sub-check is
+// skipped and says so in the evidence; it never alarms for that.
+func clockIndependence(eng *props.Engine, tier string, seed uint64, runs int, agg *doneRec) ([]*violRec, error) {
+	bin := os.Getenv("VERIF_CLOCK_BIN")
+	if bin == "" {
+		agg.Extra["simulated_clock_subcheck_unavailable"] = 1
+		return nil, nil
+	}
+	n := 600
+	if tier == "thorough" {
+		n = 12000
+	}
+	const chunks = 12
+	outs := make([]string, chunks)
+	errs := make([]error, chunks)
+	var wg sync.WaitGroup
+	for c := 0; c < chunks; c++ {
+		wg.Add(1)
+		go func(c int) {
+			defer wg.Done()
+			cmd := exec.Command(bin, "-test.run", "^TestClock$", "-test.count=1", "-test.timeout=30m")
+			cmd.Env = append(os.Environ(), fmt.Sprintf("VERIF_CLOCK_SEED=%d", seed), fmt.Sprintf("VERIF_CLOCK_LO=%d", n*c/chunks), fmt.Sprintf("VERIF_CLOCK_RUNS=%d", n*(c+1)/chunks))
+			b, err := cmd.Output()
+			outs[c], errs[c] = string(b), err
+		}(c)
+	}
+	wg.Wait()
+	var viols []*violRec
+	total, parses := 0, 0
+	for c := 0; c < chunks; c++ {
+		sawN := false
+		for _, line := range strings.Split(outs[c], "\n") {
+			switch {
+			case strings.HasPrefix(line, "n "):
+				var a, b int
+				fmt.Sscanf(line, "n %d %d", &a, &b)
+				total += a
+				parses += b
+				sawN = true
+			case strings.HasPrefix(line, "v "):
+				head, detail, _ := strings.Cut(line[2:], "\t")
+				f := strings.Fields(head)
+				if len(f) < 3 {
+					continue
+				}
+				run, _ := strconv.Atoi(f[0])
+				rs, _ := strconv.ParseUint(f[1], 10, 64)
+				viols = append(viols, &violRec{Run: run, RunSeed: rs, Class: "clock", Signature: f[2], Detail: detail})
+			}
+		}
+		if !sawN {
+			return nil, fmt.Errorf("simulated-clock sub-check did not finish (chunk %d): %v: %s", c, errs[c], sim.Clip(outs[c], 300))
+		}
+	}
+	agg.Extra["simulated_clock_inputs"] = total
+	agg.Extra["simulated_clock_parses"] = parses
+	agg.Probes["parsed-under-simulated-clock"] = parses
+	return viols, nil
 }
 
 // crossProcessDigests re-executes a prefix of the batch in fresh processes (at GOMAXPROCS 1, 4 and 16)
@@ -877,6 +945,29 @@ func replay(args []string) int {
 		return 2
 	}
 	want, _ := rf.Violation["signature"].(string)
+	if cls, _ := rf.Violation["class"].(string); cls == "clock" {
+		bin := os.Getenv("VERIF_CLOCK_BIN")
+		if bin == "" {
+			fmt.Fprintln(os.Stderr, "[verif] replay of a simulated-clock violation needs VERIF_CLOCK_BIN (./check replay sets it)")
+			return 2
+		}
+		cmd := exec.Command(bin, "-test.run", "^TestClock$", "-test.count=1")
+		cmd.Env = append(os.Environ(), fmt.Sprintf("VERIF_CLOCK_SEED=%d", rf.Seed), fmt.Sprintf("VERIF_CLOCK_ONLY=%d", rf.Run), fmt.Sprintf("VERIF_CLOCK_RUNS=%d", rf.Run+1))
+		out, err := cmd.Output()
+		if !strings.Contains(string(out), "\nn ") && !strings.HasPrefix(string(out), "n ") {
+			fmt.Fprintln(os.Stderr, "[verif] simulated-clock replay did not finish:", err)
+			return 2
+		}
+		for _, line := range strings.Split(string(out), "\n") {
+			if strings.HasPrefix(line, "v ") {
+				fmt.Fprintln(os.Stderr, "[verif] replay:", sim.Clip(line, 600))
+				fmt.Printf("VIOLATION property=%s replay=%s\n", rf.Property, args[0])
+				return 1
+			}
+		}
+		fmt.Fprintln(os.Stderr, "[verif] replay: results under every simulated instant agree; not reproduced")
+		return 3
+	}
 	if cls, _ := rf.Violation["class"].(string); cls == "cross-process" {
 		// a result that depends on the process: recompute the run's digest in fresh processes
 		self, _ := os.Executable()
